@@ -1134,7 +1134,8 @@ def p_qualifier(p):
         try:
             quals = p.parser.handle.EnumerateQualifiers(namespace=ns)
         except CIMError as ce:
-            if ce.status_code != CIM_ERR_INVALID_NAMESPACE:
+            if ce.status_code != CIM_ERR_INVALID_NAMESPACE or \
+                    p.parser.server is None:
                 raise MOFRepositoryError(
                     msg=_format(
                         "Cannot compile element specifying qualifier {0!A} "
@@ -1146,7 +1147,7 @@ def p_qualifier(p):
             if p.parser.verbose:
                 p.parser.log(
                     _format("Creating namespace {0} (in MOF compiler)", ns))
-            p.parser.server.create_namespace(ns)
+            _create_namespace(p, ns)
             quals = None
 
         if quals:
